@@ -890,7 +890,23 @@ func (g *gen) script() []string {
 			fmt.Sprintf("sleep %d", int64(150000000)), fmt.Sprintf("sweep %d", k),
 			i(f2, a), i(f1, a)}
 	}
-	switch g.r.Intn(4) {
+	switch g.r.Intn(5) {
+	case 4:
+		// a cache hit on a PIT entry that still holds another face's unsatisfied in-record: A asks for a child name, C asks for the
+		// parent with CanBePrefix, upstream answers C echoing C's token with Data named like A's Interest (cached, A stays
+		// pending), then B asks for the child name and is answered from the cache — A must not get a copy of that reply
+		ch := g.child(n)
+		if ch == "" || len(g.faces) < 3 {
+			return nil
+		}
+		up := g.faces[g.r.Intn(len(g.faces))]
+		f3 := g.faces[g.r.Intn(len(g.faces))]
+		return []string{"cs 1 1", fmt.Sprintf("strat set %s %d", n, g.r.Intn(2)), fmt.Sprintf("fib ins %s %d 0", n, up),
+			fmt.Sprintf("int %d %s 0 0 %s 10000 - - %s -", f1, ch, a, g.pick([]string{"-", "01070707"})),
+			fmt.Sprintf("int %d %s 1 0 %s 10000 - - - -", f2, n, b),
+			fmt.Sprintf("data %d %s 100000 @", up, ch),
+			fmt.Sprintf("int %d %s 0 0 %s 10000 - - %s -", f3, ch, c, g.pick([]string{"-", "0102030405060708"})),
+			fmt.Sprintf("data %d %s 100000 -", up, ch)}
 	case 3:
 		// /localhost Data cached from an exchange between local applications; then a NON-local consumer asks with CanBePrefix for
 		// a (possibly empty) prefix of it: the empty name, and names that are not under /localhost
